@@ -153,13 +153,29 @@ func VerifC05SotwReconnect() {
 	edsNonce := sent[0].Nonce
 	vp.Assert(s.processRequest(&discovery.DiscoveryRequest{TypeUrl: v3.ClusterType, ResponseNonce: oldNonceC, VersionInfo: "v0"}, con) == nil, "no-error")
 	vp.Assert(len(sent) == 2 && sent[1].TypeUrl == v3.ClusterType, "cds-request-on-new-stream-is-answered")
-	// 3. Envoy warms the clusters and re-requests EDS with the nonce it already ACKed: looks like an ACK but must be answered
-	vp.Assert(s.processRequest(eds(edsNonce), con) == nil, "no-error")
+	// 3. Envoy warms the clusters it got from CDS and re-requests EDS with the nonce it already ACKed. The cluster
+	// set may have changed while it was away, so the names may differ from step 1. It looks like an ACK (or a
+	// mere subscription change) but everything named must be answered, otherwise clusters stay warming.
+	_, edsWanted2 := verifSubset("eds.resubscribed")
+	vp.Assume(edsWanted2[0] || edsWanted2[1] || edsWanted2[2])
+	eds2 := func(nonce string) *discovery.DiscoveryRequest {
+		return &discovery.DiscoveryRequest{TypeUrl: v3.EndpointType, ResponseNonce: nonce, ResourceNames: verifNamesOf(edsWanted2), VersionInfo: "v0"}
+	}
+	vp.Assert(s.processRequest(eds2(edsNonce), con) == nil, "no-error")
 	vp.Reach("warmed")
 	vp.Assert(len(sent) == 3 && sent[2].TypeUrl == v3.EndpointType, "eds-re-request-after-cds-is-answered-for-warming")
+	if len(sent) == 3 {
+		got := 0
+		for i := range verifUniverse {
+			if edsWanted2[i] && edsExists[i] {
+				got++
+			}
+		}
+		vp.Assert(len(sent[2].Resources) == got, "warming-response-covers-every-named-cluster")
+	}
 	// 4. the ACK of that response is silent, and so is a repeated ACK: no loop
-	vp.Assert(s.processRequest(eds(sent[2].Nonce), con) == nil, "no-error")
-	vp.Assert(s.processRequest(eds(sent[2].Nonce), con) == nil, "no-error")
+	vp.Assert(s.processRequest(eds2(sent[2].Nonce), con) == nil, "no-error")
+	vp.Assert(s.processRequest(eds2(sent[2].Nonce), con) == nil, "no-error")
 	vp.Assert(len(sent) == 3, "server-is-silent-after-the-ack")
 }
 
